@@ -40,6 +40,10 @@ func expectedOutcome(site string) string {
 }
 
 func replay(ld *Loaded, fn *ssa.Function, f *Finding, dir string) *ReplayResult {
+	return replayP(ld, fn, f, dir, nil)
+}
+
+func replayP(ld *Loaded, fn *ssa.Function, f *Finding, dir string, params map[string]int) *ReplayResult {
 	os.RemoveAll(dir)
 	if err := os.MkdirAll(dir, 0o755); err != nil {
 		return &ReplayResult{Outcome: "build-error", Tail: err.Error()}
@@ -67,10 +71,10 @@ func TestVReplay(t *testing.T) {
 		runtime.ReadMemStats(&m1)
 		fmt.Printf("VSYM-TOTALALLOC %%d\n", m1.TotalAlloc-m0.TotalAlloc)
 	}()
-	%s()
+%s	%s()
 	fmt.Println("VSYM-RETURNED")
 }
-`, fn.Pkg.Pkg.Name(), fn.Name())
+`, fn.Pkg.Pkg.Name(), paramAssigns(params), fn.Name())
 	testReal := filepath.Join(dir, "zz_verif_replay_test.go")
 	os.WriteFile(testReal, []byte(testSrc), 0o644)
 	repl := map[string]string{}
@@ -143,4 +147,12 @@ func TestVReplay(t *testing.T) {
 		}
 	}
 	return rr
+}
+
+func paramAssigns(params map[string]int) string {
+	var sb strings.Builder
+	for k, v := range params {
+		fmt.Fprintf(&sb, "\t%s = %d\n", k, v)
+	}
+	return sb.String()
 }
